@@ -326,6 +326,15 @@ func (w *ResponseWriter) WriteMsg(m *dns.Msg) error {
 		w.setCookie()
 		w.setNSID()
 
+		// A COOKIE option on a response OPT that is not ours was set by an
+		// upstream: it is that server's cookie for our exchange with it,
+		// not a server cookie for this client. The client may get a cookie
+		// only against the client cookie it sent, bound to its address —
+		// the one setCookie adds above.
+		if opt != w.opt {
+			opt.Option = stripCookie(opt.Option)
+		}
+
 		// Only add our options if they're not already in the response OPT
 		switch {
 		case opt == w.opt:
@@ -411,6 +420,18 @@ func stripECS(opts []dns.EDNS0) []dns.EDNS0 {
 	keep := opts[:0]
 	for _, o := range opts {
 		if _, isECS := o.(*dns.EDNS0_SUBNET); isECS {
+			continue
+		}
+		keep = append(keep, o)
+	}
+	return keep
+}
+
+// stripCookie returns opts with every COOKIE option removed, in place.
+func stripCookie(opts []dns.EDNS0) []dns.EDNS0 {
+	keep := opts[:0]
+	for _, o := range opts {
+		if o.Option() == dns.EDNS0COOKIE {
 			continue
 		}
 		keep = append(keep, o)
